@@ -48,12 +48,16 @@ type shState struct {
 	n            *int
 	delta        int  // net change of storeList.count on this path
 	countUnknown bool // count was set to something other than count±1
+	rets         map[*ssa.Call][]string // results of calls executed inline
 }
 
 func (s *shState) clone() *shState {
 	c := &shState{field: map[shKey]string{}, stored: map[shKey]bool{}, cells: map[ssa.Value]string{}, isNil: map[string]bool{},
 		nonNil: map[string]bool{}, fresh: map[string]bool{}, phi: map[*ssa.Phi]string{}, vals: map[ssa.Value]string{}, n: s.n,
-		delta: s.delta, countUnknown: s.countUnknown}
+		delta: s.delta, countUnknown: s.countUnknown, rets: map[*ssa.Call][]string{}}
+	for k, v := range s.rets {
+		c.rets[k] = v
+	}
 	for k, v := range s.field {
 		c.field[k] = v
 	}
@@ -94,6 +98,9 @@ type shapeChecker struct {
 	isNode   map[string]bool
 	paths    int
 	cut      bool
+	unroll   int                    // how often a block may be entered on one path
+	inline   map[*ssa.Function]bool // helpers executed inside their callers (they rely on what the call site passes)
+	budget   int
 }
 
 func (sc *shapeChecker) linkField(f *types.Var) string {
@@ -108,6 +115,16 @@ func (sc *shapeChecker) linkField(f *types.Var) string {
 		return "tail"
 	}
 	return ""
+}
+
+func shortID(id string) string {
+	if i := strings.Index(id, "#"); i >= 0 {
+		id = id[:i]
+	}
+	if i := strings.Index(id, "@"); i >= 0 {
+		id = id[:i]
+	}
+	return id
 }
 
 func opposite(f string) string {
@@ -149,6 +166,9 @@ func (sc *shapeChecker) value(s *shState, v ssa.Value) string {
 		return "free:" + x.Name()
 	case *ssa.ChangeType:
 		return sc.value(s, x.X)
+	}
+	if ins, ok := v.(ssa.Instruction); ok && ins.Parent() != nil && ins.Parent() != sc.fn {
+		return "v:" + ins.Parent().Name() + "." + v.Name()
 	}
 	return "v:" + v.Name()
 }
@@ -212,6 +232,23 @@ func (sc *shapeChecker) load(s *shState, base, field string) string {
 
 func (sc *shapeChecker) step(s *shState, in ssa.Instruction) {
 	switch x := in.(type) {
+	case *ssa.Alloc:
+		// every execution of an allocation yields a new object (a loop body entered twice makes two nodes)
+		*s.n++
+		id := fmt.Sprintf("&%s@%s#%d", x.Comment, x.Name(), *s.n)
+		if p, ok := x.Type().Underlying().(*types.Pointer); ok && sc.c.isPkgType(p.Elem(), "listItem") {
+			sc.isNode[id] = true
+		}
+		s.fresh[id] = true
+		s.nonNil[id] = true
+		s.vals[x] = id
+		delete(s.cells, x)
+	case *ssa.Extract:
+		if call, ok := x.Tuple.(*ssa.Call); ok {
+			if r, ok := s.rets[call]; ok && x.Index < len(r) {
+				s.vals[x] = r[x.Index]
+			}
+		}
 	case *ssa.UnOp:
 		if x.Op != token.MUL {
 			return
@@ -344,15 +381,7 @@ func (sc *shapeChecker) check(s *shState, where string) {
 		}
 		return keys[i].field < keys[j].field
 	})
-	short := func(id string) string {
-		if i := strings.Index(id, "#"); i >= 0 {
-			id = id[:i]
-		}
-		if i := strings.Index(id, "@"); i >= 0 {
-			id = id[:i]
-		}
-		return id
-	}
+	short := shortID
 	for _, k := range keys {
 		y := s.field[k]
 		if isNil, _ := sc.known(s, y); isNil {
@@ -402,7 +431,7 @@ func (sc *shapeChecker) check(s *shState, where string) {
 }
 
 // checkEnds: head is nil exactly when tail is nil (checked when either end was written).
-func (sc *shapeChecker) checkEnds(s *shState, where string) {
+func (sc *shapeChecker) checkEnds(s *shState, where string, underConstruction bool) {
 	bases := map[string]bool{}
 	for k := range s.stored {
 		if k.field == "head" || k.field == "tail" {
@@ -410,6 +439,9 @@ func (sc *shapeChecker) checkEnds(s *shState, where string) {
 		}
 	}
 	for b := range bases {
+		if underConstruction && s.fresh[b] {
+			continue
+		}
 		h := sc.load(s, b, "head")
 		t := sc.load(s, b, "tail")
 		hn, hnn := sc.known(s, h)
@@ -422,9 +454,9 @@ func (sc *shapeChecker) checkEnds(s *shState, where string) {
 			hnn = true
 		}
 		if (hn && tnn) || (hnn && tn) {
-			key := b + ".head/tail"
+			key := shortID(b) + ".head/tail"
 			if _, dup := sc.problems[key]; !dup {
-				sc.problems[key] = fmt.Sprintf("on a path to %s: one end of %s is nil and the other is not (head nil=%v, tail nil=%v): the list is empty from one side only", where, b, hn, tn)
+				sc.problems[key] = fmt.Sprintf("on a path to %s: one end of %s is nil and the other is not (head nil=%v, tail nil=%v): the list is empty from one side only", where, shortID(b), hn, tn)
 			}
 		}
 	}
@@ -481,97 +513,157 @@ func (sc *shapeChecker) isPivot(s *shState, id string) bool {
 	return false
 }
 
-func (sc *shapeChecker) run() {
-	n := 0
-	var walk func(b *ssa.BasicBlock, from *ssa.BasicBlock, s *shState, onPath map[*ssa.BasicBlock]bool, depth int)
-	walk = func(b *ssa.BasicBlock, from *ssa.BasicBlock, s *shState, onPath map[*ssa.BasicBlock]bool, depth int) {
-		if sc.paths > 4000 {
-			sc.cut = true
-			return
-		}
-		if onPath[b] {
-			// back edge: the invariant must hold as loop invariant
-			sc.paths++
-			sc.check(s, "the next loop iteration")
-			sc.checkEnds(s, "the next loop iteration")
-			sc.hasLoop = true
-			return
-		}
-		onPath[b] = true
-		defer delete(onPath, b)
-		// phis
-		if from != nil {
-			idx := -1
-			for i, p := range b.Preds {
-				if p == from {
-					idx = i
-				}
-			}
-			newPhi := map[*ssa.Phi]string{}
-			for _, in := range b.Instrs {
-				p, ok := in.(*ssa.Phi)
-				if !ok {
-					break
-				}
-				if idx >= 0 {
-					newPhi[p] = sc.value(s, p.Edges[idx])
-				}
-			}
-			for p, v := range newPhi {
-				s.phi[p] = v
-				delete(s.vals, p)
-			}
-		}
-		for _, in := range b.Instrs {
-			sc.step(s, in)
-		}
-		last := b.Instrs[len(b.Instrs)-1]
-		switch t := last.(type) {
-		case *ssa.Return:
-			sc.paths++
-			sc.check(s, "a return")
-			sc.checkEnds(s, "a return")
-			sc.checkCount(s, "a return")
-		case *ssa.If:
-			// nil tests
-			var id string
-			eq := false
-			isNilTest := false
-			if bo, ok := t.Cond.(*ssa.BinOp); ok && (bo.Op == token.EQL || bo.Op == token.NEQ) {
-				eq = bo.Op == token.EQL
-				if isNilConst(bo.Y) {
-					id, isNilTest = sc.value(s, bo.X), true
-				} else if isNilConst(bo.X) {
-					id, isNilTest = sc.value(s, bo.Y), true
-				}
-			}
-			for i, succ := range b.Succs {
-				ns := s.clone()
-				if isNilTest {
-					// succ 0 is the true branch
-					nilHere := (i == 0) == eq
-					if !sc.setNil(ns, id, nilHere) {
-						continue // infeasible
-					}
-					sc.headTail(ns, id, nilHere)
-				}
-				walk(succ, b, ns, onPath, depth+1)
-			}
-		case *ssa.Jump:
-			walk(b.Succs[0], b, s, onPath, depth+1)
-		case *ssa.Panic:
-		default:
-			for _, succ := range b.Succs {
-				walk(succ, b, s.clone(), onPath, depth+1)
-			}
+// shFrame: one activation in the symbolic execution — the function under judgement, or a helper executed inside it.
+type shFrame struct {
+	fn     *ssa.Function
+	onPath map[*ssa.BasicBlock]int
+	depth  int
+	call   *ssa.Call
+	up     *shFrame
+	resume func(s *shState) // continues the caller after the call (nil for the function under judgement)
+}
+
+func (fr *shFrame) active(g *ssa.Function) bool {
+	for f := fr; f != nil; f = f.up {
+		if f.fn == g {
+			return true
 		}
 	}
+	return false
+}
+
+func (sc *shapeChecker) run() {
+	n := 0
+	if sc.unroll == 0 {
+		sc.unroll = 2
+	}
+	if sc.budget == 0 {
+		sc.budget = 6000
+	}
 	s0 := &shState{field: map[shKey]string{}, stored: map[shKey]bool{}, cells: map[ssa.Value]string{}, isNil: map[string]bool{},
-		nonNil: map[string]bool{}, fresh: map[string]bool{}, phi: map[*ssa.Phi]string{}, vals: map[ssa.Value]string{}, n: &n}
+		nonNil: map[string]bool{}, fresh: map[string]bool{}, phi: map[*ssa.Phi]string{}, vals: map[ssa.Value]string{}, n: &n, rets: map[*ssa.Call][]string{}}
 	if sc.fn.Signature.Recv() != nil && len(sc.fn.Params) > 0 {
 		s0.nonNil[sc.fn.Params[0].Name()] = true
 	}
-	walk(sc.fn.Blocks[0], nil, s0, map[*ssa.BasicBlock]bool{}, 0)
+	root := &shFrame{fn: sc.fn, onPath: map[*ssa.BasicBlock]int{}}
+	sc.enter(root, sc.fn.Blocks[0], nil, s0)
+}
+
+// enter: control reaches block b from block `from`.
+func (sc *shapeChecker) enter(fr *shFrame, b, from *ssa.BasicBlock, s *shState) {
+	if sc.paths > sc.budget {
+		sc.cut = true
+		return
+	}
+	if fr.onPath[b] >= sc.unroll {
+		// back edge after the last unrolling: the invariant must hold as loop invariant (a list header made by this
+		// very function is still under construction: its ends are judged where the function returns)
+		sc.paths++
+		sc.check(s, "the next loop iteration")
+		sc.checkEnds(s, "the next loop iteration", true)
+		sc.hasLoop = true
+		return
+	}
+	if fr.onPath[b] > 0 {
+		sc.hasLoop = true
+	}
+	fr.onPath[b]++
+	defer func() { fr.onPath[b]-- }()
+	if from != nil {
+		idx := -1
+		for i, p := range b.Preds {
+			if p == from {
+				idx = i
+			}
+		}
+		newPhi := map[*ssa.Phi]string{}
+		for _, in := range b.Instrs {
+			p, ok := in.(*ssa.Phi)
+			if !ok {
+				break
+			}
+			if idx >= 0 {
+				newPhi[p] = sc.value(s, p.Edges[idx])
+			}
+		}
+		for p, v := range newPhi {
+			s.phi[p] = v
+			delete(s.vals, p)
+		}
+	}
+	sc.execFrom(fr, b, 0, s)
+}
+
+// execFrom executes the instructions of b from index idx on; a call of a helper in sc.inline is executed inside.
+func (sc *shapeChecker) execFrom(fr *shFrame, b *ssa.BasicBlock, idx int, s *shState) {
+	for i := idx; i < len(b.Instrs)-1; i++ {
+		in := b.Instrs[i]
+		if call, ok := in.(*ssa.Call); ok {
+			if g := call.Call.StaticCallee(); g != nil && sc.inline[g] && g.Blocks != nil && fr.depth < 3 && !fr.active(g) {
+				for k, p := range g.Params {
+					if k < len(call.Call.Args) {
+						s.vals[p] = sc.value(s, call.Call.Args[k])
+					}
+				}
+				next := i + 1
+				sub := &shFrame{fn: g, onPath: map[*ssa.BasicBlock]int{}, depth: fr.depth + 1, call: call, up: fr}
+				sub.resume = func(s2 *shState) { sc.execFrom(fr, b, next, s2) }
+				sc.enter(sub, g.Blocks[0], nil, s)
+				return
+			}
+		}
+		sc.step(s, in)
+	}
+	switch t := b.Instrs[len(b.Instrs)-1].(type) {
+	case *ssa.Return:
+		if fr.resume != nil {
+			var r []string
+			for _, v := range t.Results {
+				r = append(r, sc.value(s, v))
+			}
+			s.rets[fr.call] = r
+			if len(r) == 1 {
+				s.vals[fr.call] = r[0]
+			}
+			fr.resume(s)
+			return
+		}
+		sc.paths++
+		sc.check(s, "a return")
+		sc.checkEnds(s, "a return", false)
+		sc.checkCount(s, "a return")
+	case *ssa.If:
+		var id string
+		eq := false
+		isNilTest := false
+		if bo, ok := t.Cond.(*ssa.BinOp); ok && (bo.Op == token.EQL || bo.Op == token.NEQ) {
+			eq = bo.Op == token.EQL
+			if isNilConst(bo.Y) {
+				id, isNilTest = sc.value(s, bo.X), true
+			} else if isNilConst(bo.X) {
+				id, isNilTest = sc.value(s, bo.Y), true
+			}
+		}
+		for i, succ := range b.Succs {
+			ns := s.clone()
+			if isNilTest {
+				// succ 0 is the true branch
+				nilHere := (i == 0) == eq
+				if !sc.setNil(ns, id, nilHere) {
+					continue // infeasible
+				}
+				sc.headTail(ns, id, nilHere)
+			}
+			sc.enter(fr, succ, b, ns)
+		}
+	case *ssa.Jump:
+		sc.enter(fr, b.Succs[0], b, s)
+	case *ssa.Panic:
+	default:
+		for _, succ := range b.Succs {
+			sc.enter(fr, succ, b, s.clone())
+		}
+	}
 }
 
 // headTail: in a well-formed list head is nil exactly when tail is nil; applies to initial (unwritten) values only.
@@ -600,17 +692,101 @@ func ruleListShape(c *Ctx) {
 		c.S.Undecided("R-list-shape", "anchors", "-", "listItem.next/prev or storeList.head/tail not found")
 		return
 	}
-	for _, fn := range c.SrcFuncs() {
-		if fn.Blocks == nil || !sc0.writesLinks(fn) {
-			continue
+	judge := func(fn *ssa.Function, inline map[*ssa.Function]bool) *shapeChecker {
+		var sc *shapeChecker
+		for _, unroll := range []int{2, 1} {
+			sc = &shapeChecker{c: c, fn: fn, fNext: sc0.fNext, fPrev: sc0.fPrev, fHead: sc0.fHead, fTail: sc0.fTail, fCount: sc0.fCount,
+				problems: map[string]string{}, isNode: map[string]bool{}, unroll: unroll, inline: inline}
+			sc.run()
+			if !sc.cut {
+				break
+			}
 		}
-		sc := &shapeChecker{c: c, fn: fn, fNext: sc0.fNext, fPrev: sc0.fPrev, fHead: sc0.fHead, fTail: sc0.fTail, fCount: sc0.fCount, problems: map[string]string{}, isNode: map[string]bool{}}
-		sc.run()
 		if sc.hasLoop {
 			delete(sc.problems, "count") // builders set count after/inside the loop; R-ctor-agree covers the field set
 		}
+		return sc
+	}
+	// static call sites of every function; a function that is also used as a value can be called from anywhere
+	callers := map[*ssa.Function][]*ssa.Function{}
+	escapes := map[*ssa.Function]bool{}
+	for _, fn := range c.SrcFuncs() {
+		for _, in := range instrsOf(fn) {
+			var ops []*ssa.Value
+			for _, op := range in.Operands(ops) {
+				if g, ok := (*op).(*ssa.Function); ok {
+					if call, isCall := in.(ssa.CallInstruction); isCall && call.Common().Value == ssa.Value(g) && !call.Common().IsInvoke() {
+						if _, plain := in.(*ssa.Call); plain {
+							callers[g] = append(callers[g], fn)
+							continue
+						}
+					}
+					escapes[g] = true
+				}
+			}
+		}
+	}
+	// round 0: every function that writes links, on its own. A helper that fails on its own and is only ever called
+	// directly relies on what its call sites pass (a node that is new, two nodes that are neighbours): it is executed
+	// inside each of its callers instead, and those callers are judged (repeated for helpers of helpers).
+	inline := map[*ssa.Function]bool{}
+	results := map[*ssa.Function]*shapeChecker{}
+	for round := 0; round < 4; round++ {
+		todo := map[*ssa.Function]bool{}
+		for _, fn := range c.SrcFuncs() {
+			if fn.Blocks == nil || inline[fn] {
+				continue
+			}
+			if sc0.writesLinks(fn) && results[fn] == nil {
+				todo[fn] = true
+			}
+			for g := range inline {
+				for _, f := range callers[g] {
+					if f == fn {
+						todo[fn] = true
+					}
+				}
+			}
+		}
+		grew := false
+		for fn := range todo {
+			results[fn] = judge(fn, inline)
+		}
+		for fn, sc := range results {
+			if inline[fn] || len(sc.problems) == 0 || sc.cut {
+				continue
+			}
+			if len(callers[fn]) > 0 && !escapes[fn] && round < 3 {
+				inline[fn] = true
+				grew = true
+			}
+		}
+		if !grew {
+			break
+		}
+	}
+	var fns []*ssa.Function
+	for fn := range results {
+		fns = append(fns, fn)
+	}
+	sort.Slice(fns, func(i, j int) bool { return fnName(fns[i]) < fnName(fns[j]) })
+	for _, fn := range fns {
+		sc := results[fn]
+		if inline[fn] {
+			var cs []string
+			seen := map[string]bool{}
+			for _, f := range callers[fn] {
+				if !seen[fnName(f)] {
+					seen[fnName(f)] = true
+					cs = append(cs, fnName(f))
+				}
+			}
+			sort.Strings(cs)
+			c.S.OK("R-list-shape", fnName(fn)+":judged-in-callers", c.Pos(fn.Pos()), "relies on what its call sites pass; executed inside each caller: "+strings.Join(cs, ", "))
+			continue
+		}
 		if sc.cut {
-			c.S.Undecided("R-list-shape", fnName(fn)+":paths", c.Pos(fn.Pos()), "more than 4000 paths: not explored completely")
+			c.S.Undecided("R-list-shape", fnName(fn)+":paths", c.Pos(fn.Pos()), fmt.Sprintf("more than %d paths: not explored completely", sc.budget))
 			continue
 		}
 		if len(sc.problems) == 0 {
@@ -669,6 +845,34 @@ func ruleListUnlinkedUse(c *Ctx) {
 					detach[fn] = map[int]bool{}
 				}
 				detach[fn][i] = true
+			}
+		}
+	}
+	// a function that hands its parameter on to a detaching function detaches it as well
+	for round := 0; round < 3; round++ {
+		for _, fn := range c.SrcFuncs() {
+			for _, in := range instrsOf(fn) {
+				call, ok := in.(*ssa.Call)
+				if !ok {
+					continue
+				}
+				g := call.Call.StaticCallee()
+				if g == nil || detach[g] == nil || g == fn {
+					continue
+				}
+				for i := range detach[g] {
+					if i >= len(call.Call.Args) {
+						continue
+					}
+					for k, p := range fn.Params {
+						if call.Call.Args[i] == ssa.Value(p) {
+							if detach[fn] == nil {
+								detach[fn] = map[int]bool{}
+							}
+							detach[fn][k] = true
+						}
+					}
+				}
 			}
 		}
 	}
